@@ -3,7 +3,7 @@
 From Coq Require Import List Arith ZArith Bool Lia Permutation Wf_nat.
 From MptV Require Import C14.NodeModel C14.NodeSpec C14.NodeRep C14.NodeFocus C14.NodeExec
   C14.NodeLocal C14.NodeInv C14.NodeRefine C14.NodeFree C14.NodeClone C14.NodeInsert C14.NodeInsertName
-  C14.NodeWalk C14.NodeEnd C14.NodeMove C14.NodeMoveStep C14.NodeSwap C14.NodeSwitch C14.NodeFind.
+  C14.NodeWalk C14.NodeEnd C14.NodeMove C14.NodeMoveStep C14.NodeSwap C14.NodeSwitch C14.NodeFind C14.NodeLevel.
 Import ListNotations.
 Local Open Scope nat_scope.
 
@@ -30,6 +30,9 @@ Proof.
   - apply step_trav.
   - apply step_find.
   - apply step_next.
+  - apply step_locate.
+  - apply step_walk.
+  - apply step_null.
   - apply step_end.
 Qed.
 
@@ -66,39 +69,65 @@ Proof.
   exists h', (snd (sstep s o)). split; [exact E|]. exists (fst (sstep s o)). exact I'.
 Qed.
 
-(* clone: the new top-level list has the shape of the source at every depth, and
-   (because [inv] holds afterwards) its links, parent links included, are those of
-   that forest *)
-Lemma clone_shape h s x c l1 tx l2 :
-  inv h s -> focus x (lists s) = Some (c, l1, tx, l2) ->
-  exists h' l',
-    mstep h (OLClone x) = ROk (h', OutP (Some (nextid h))) /\
-    inv h' (mkS (lists s ++ [l']) (nextid h') (sfreed s)) /\
-    shape_l l' = shape_l (tx :: l2) /\
-    (forall i, i < nextid h -> cells h' i = cells h i).
+(* clone: whatever fails on the way (a value that cannot be cloned, the k-th allocation),
+   mpt_list_clone either delivers a new top-level list with the shape of the source at
+   every depth (and, because [inv] holds afterwards, with the links, parent links
+   included, of that forest), or it delivers nothing and the forest is as before: what
+   it had built is freed again, once each.  No existing cell is changed either way. *)
+Lemma old_cells_kept h s h' s' :
+  inv h s -> inv h' s' ->
+  (forall i, In i (ids_st (lists s)) -> In i (ids_st (lists s'))) ->
+  (forall i, In i (ids_st (lists s')) -> In i (ids_st (lists s)) \/ nextid h <= i) ->
+  (exists rest, lists s' = lists s ++ rest) ->
+  forall i, i < nextid h -> cells h' i = cells h i.
 Proof.
-  intros I F. destruct (step_lclone x h s I) as (h' & E & I').
-  cbn [sstep] in E, I'. rewrite F in E, I'.
-  pose proof (renum_shape (tx :: l2) (scount s)) as Sh.
-  destruct (renum_l (tx :: l2) (scount s)) as [l' c'] eqn:Er. cbn [fst snd] in *.
-  exists h', l'. rewrite (i_cnt _ _ I). split; [exact E|].
-  rewrite (i_cnt _ _ I'). cbn [scount]. split; [exact I'|]. split; [exact Sh|].
-  intros i Hi. pose proof (i_rep _ _ I') as R. cbn [lists] in R.
-  (* old cells: both heaps represent the old lists on the same ids *)
+  intros I I' Sub Sup (rest & El) i Hi.
   destruct (in_dec Nat.eq_dec i (ids_st (lists s))) as [K|K].
-  - rewrite rep_st_app in R. destruct R as [R _].
-    destruct (rep_cell_some _ _ _ (i_rep _ _ I) K) as (nd & Hnd).
-    unfold rep_st, repc in R. rewrite Forall_forall in R.
-    pose proof (i_rep _ _ I) as R0. unfold rep_st, repc in R0. rewrite Forall_forall in R0.
-    rewrite <- keys_exp_st in K. apply in_map_iff in K. destruct K as ([j nd'] & Ej & Hin). cbn in Ej. subst j.
-    pose proof (R _ Hin) as E1. pose proof (R0 _ Hin) as E2. cbn [fst snd] in E1, E2.
-    rewrite E1, E2. reflexivity.
+  - pose proof (i_rep _ _ I') as R'. rewrite El, rep_st_app in R'. destruct R' as [R' _].
+    exact (rep_agree _ _ _ _ R' (i_rep _ _ I) K).
   - assert (C0 : cells h i = None).
     { destruct (cells h i) eqn:C; [|reflexivity]. exfalso. apply K. apply (i_dom _ _ I). rewrite C. discriminate. }
     rewrite C0. destruct (cells h' i) eqn:C; [|reflexivity]. exfalso.
-    assert (K' : In i (ids_st (lists s ++ [l']))) by (apply (i_dom _ _ I'); rewrite C; discriminate).
-    rewrite ids_st_app in K'. apply in_app_or in K'. destruct K' as [K'|K']; [contradiction|].
-    cbn [ids_st flat_map] in K'. rewrite app_nil_r in K'.
-    pose proof (renum_l_spec (tx :: l2) (scount s)) as [Ids _]. rewrite Er in Ids. cbn [fst] in Ids.
-    rewrite Ids in K'. apply in_seq in K'. lia.
+    assert (K' : In i (ids_st (lists s'))) by (apply (i_dom _ _ I'); rewrite C; discriminate).
+    destruct (Sup i K') as [K''|K'']; [contradiction|lia].
+Qed.
+
+Lemma clone_shape h s x c l1 tx l2 k :
+  inv h s -> focus x (lists s) = Some (c, l1, tx, l2) ->
+  exists h',
+    (forall i, i < nextid h -> cells h' i = cells h i) /\
+    ((exists l',
+        mstep h (OLClone x k) = ROk (h', OutP (Some (nextid h))) /\
+        inv h' (mkS (lists s ++ [l']) (nextid h') (sfreed s)) /\
+        shape_l l' = shape_l (tx :: l2))
+     \/
+     (mstep h (OLClone x k) = ROk (h', OutP None) /\
+      inv h' (mkS (lists s) (nextid h') (seq (nextid h) (nextid h' - nextid h) ++ sfreed s)))).
+Proof.
+  intros I F. destruct (step_lclone x k h s I) as (h' & E & I').
+  cbn [sstep] in E, I'. rewrite F in E, I'.
+  pose proof (sclone_l_spec (tx :: l2) (scount s) k) as Sp.
+  destruct (sclone_l (tx :: l2) (scount s) k) as [[[l'|] c'] k'] eqn:Er; cbn [clone_result fst snd] in *.
+  - destruct Sp as (Ids & Cn & Sh). exists h'. split.
+    + eapply old_cells_kept; [exact I|exact I'| | |]; cbn [lists].
+      * intros i Hi. rewrite ids_st_app. apply in_or_app. auto.
+      * intros i Hi. rewrite ids_st_app in Hi. apply in_app_or in Hi. destruct Hi as [Hi|Hi]; [auto|right].
+        cbn [ids_st flat_map] in Hi. rewrite app_nil_r, Ids in Hi. apply in_seq in Hi. rewrite (i_cnt _ _ I). lia.
+      * eauto.
+    + left. exists l'. rewrite (i_cnt _ _ I). split; [exact E|]. rewrite (i_cnt _ _ I'). cbn [scount].
+      split; [exact I'|exact Sh].
+  - exists h'. split.
+    + eapply old_cells_kept; [exact I|exact I'| | |]; cbn [lists]; auto. exists []. rewrite app_nil_r. reflexivity.
+    + right. split; [exact E|]. rewrite (i_cnt _ _ I'), (i_cnt _ _ I). cbn [scount]. exact I'.
+Qed.
+
+(* ... and it does deliver when nothing fails: no allocation failure, every value clonable *)
+Lemma clone_succeeds h s x c l1 tx l2 :
+  inv h s -> focus x (lists s) = Some (c, l1, tx, l2) -> forallb clonable_t (tx :: l2) = true ->
+  exists h', mstep h (OLClone x 0) = ROk (h', OutP (Some (nextid h))).
+Proof.
+  intros I F Hc. destruct (step_lclone x 0 h s I) as (h' & E & _).
+  cbn [sstep] in E. rewrite F in E.
+  destruct (sclone_l_ok (tx :: l2) (scount s) Hc) as (l' & c' & Es). rewrite Es in E.
+  cbn [clone_result snd] in E. exists h'. rewrite (i_cnt _ _ I). exact E.
 Qed.
